@@ -21,6 +21,13 @@ PY = sys.executable
 NPROC = int(os.environ.get("VERIF_WORKERS", "16"))
 
 
+# counters of Sim.stats that are injected faults / schedule perturbations (the rest is plain traffic)
+FAULT_KINDS = {
+    "busy", "sock_flip", "multi_socket_iteration", "drop", "dup", "delay", "partition_drop", "crash", "stall", "inject",
+    "slow_resolver", "chunks", "eof", "reset", "dgram_to_dead_socket", "swallowed",
+}
+
+
 def load_prop(pid):
     return importlib.import_module(f"props.{pid.lower()}")
 
@@ -380,7 +387,8 @@ def check_main(pid, tier, seed):
             "runs_per_hour": int(ev / wall_s * 3600) if wall_s > 0 else 0,
             "sim_seconds_total": round(sum(a["sim_seconds"] for a in aggs), 3),
             "loop_iterations_total": sum(a["iterations"] for a in aggs),
-            "faults_fired": stats,
+            "faults_fired": {k: v for k, v in stats.items() if k in FAULT_KINDS},
+            "traffic": {k: v for k, v in stats.items() if k not in FAULT_KINDS},
             "probes": probes,
             "probes_at_zero": sorted(p for p in getattr(prop, "PROBES", []) if not probes.get(p)),
             "run_classes": classes,
